@@ -7,6 +7,7 @@
 //! concatenation of the template's fields at their declared lengths, followed by padding
 //! shorter than one record.
 use crate::common::*;
+use crate::km::*;
 use netflow_parser::variable_versions::data_number::{DataNumber, FieldDataType, FieldValue};
 use netflow_parser::variable_versions::v9::{
     Data, OptionDataField, OptionsData, OptionsTemplate, OptionsTemplateScopeField, ScopeDataField,
@@ -14,40 +15,7 @@ use netflow_parser::variable_versions::v9::{
 };
 use netflow_parser::variable_versions::v9_lookup::{ScopeFieldType, V9Field};
 
-/// Exact model of FieldValue::from_field_type for UnsignedDataNumber with length <= 7
-/// (widths 8 and 16 excluded by the harness domain).  Allocation-free.
-pub fn unsigned_kernel_model<'a>(
-    remaining: &'a [u8],
-    ty: FieldDataType,
-    len: u16,
-) -> nom::IResult<&'a [u8], FieldValue> {
-    assert!(ty == FieldDataType::UnsignedDataNumber);
-    assert!(len <= 7);
-    let fail = |k| Err(nom::Err::Error(nom::error::Error::new(remaining, k)));
-    if len == 0 || len > 4 {
-        return fail(nom::error::ErrorKind::Fail);
-    }
-    let w = len as usize;
-    if remaining.len() < w {
-        return fail(nom::error::ErrorKind::Eof);
-    }
-    let v = match w {
-        1 => DataNumber::U8(remaining[0]),
-        2 => DataNumber::U16(be16(remaining, 0)),
-        3 => DataNumber::U24(((remaining[0] as u32) << 16) | ((remaining[1] as u32) << 8) | remaining[2] as u32),
-        _ => DataNumber::U32(be32(remaining, 0)),
-    };
-    Ok((&remaining[w..], FieldValue::DataNumber(v)))
-}
 
-pub fn num_at(b: &[u8], o: usize, w: usize) -> DataNumber {
-    match w {
-        1 => DataNumber::U8(b[o]),
-        2 => DataNumber::U16(be16(b, o)),
-        3 => DataNumber::U24(((b[o] as u32) << 16) | ((b[o + 1] as u32) << 8) | b[o + 2] as u32),
-        _ => DataNumber::U32(be32(b, o)),
-    }
-}
 
 fn legal(l: u16) -> bool {
     l >= 1 && l <= 4
@@ -187,13 +155,6 @@ d_v9_zero_size_template!(d_v9_zero_size_template_0, 0);
 d_v9_zero_size_template!(d_v9_zero_size_template_1, 1);
 d_v9_zero_size_template!(d_v9_zero_size_template_2, 2);
 
-/// Exact model of the kernel for FieldDataType::Unknown with parse_unknown_fields OFF
-/// (k::k_unknown_off shows the real kernel fails for every length and input).
-#[cfg(feature = "off")]
-pub fn unknown_off_kernel_model<'a>(remaining: &'a [u8], ty: FieldDataType, len: u16) -> nom::IResult<&'a [u8], FieldValue> {
-    assert!(ty == FieldDataType::Unknown);
-    Err(nom::Err::Error(nom::error::Error::new(remaining, nom::error::ErrorKind::Fail)))
-}
 
 /// C17: with the feature off, a V9 data flowset governed by a template containing a field
 /// type the library does not know yields no decoded record.
